@@ -371,7 +371,12 @@ func delivered(r *ev.Run, c *ev.Case, ag *wire.Agent, tr *tracker, signer *gsrig
 	return true
 }
 
+var hungOnce bool
+
 func judge(r *ev.Run, c *ev.Case, e *env, sh shape, rec faultRec, inject func(*wire.Agent, *tracker, *gsrig.Signer)) {
+	if hungOnce {
+		return // a run that never returned may hold process-wide state; later runs in this process are not meaningful
+	}
 	ag, tr, signer, closeFn, err := build(e, sh)
 	defer closeFn()
 	if err != nil {
@@ -384,7 +389,10 @@ func judge(r *ev.Run, c *ev.Case, e *env, sh shape, rec faultRec, inject func(*w
 	rec.Result = gsrig.Kind(runErr)
 	sig := fmt.Sprintf("%s@%s", rec.Fault, rec.Stage)
 	if escaped != "" {
-		r.Violation(c, "panic-escapes-run:"+sig, escaped, rec)
+		r.Violation(c, gsrig.EscapeSig(escaped)+":"+sig, escaped, rec)
+		if escaped == gsrig.Hung {
+			hungOnce = true
+		}
 		return
 	}
 	// no certificate reaches the agent for a key one of whose requests the CA did not sign
@@ -434,6 +442,24 @@ func judge(r *ev.Run, c *ev.Case, e *env, sh shape, rec faultRec, inject func(*w
 		r.Violation(c, fmt.Sprintf("wrong-error-kind:%s:got=%s", sig, rec.Result), fmt.Sprintf("fault %s at index %d falls into the %s stage, Run returned %q (%v)", rec.Fault, rec.At, rec.Stage, rec.Result, runErr), rec)
 		return
 	}
+	// the process keeps running: the next, fault-free run (fresh agent, same process) completes
+	if r.Counter("follow-up runs after a fault")%7 == 0 {
+		ag2, tr2, s2, close2, berr := build(e, shape{Real: sh.Real, Keys: sh.Keys, CSRs: sh.CSRs, NCerts: sh.NCerts})
+		if berr == nil {
+			e2, esc2 := gsrig.Run(param(), []gensign.Handler{tr2}, s2)
+			if esc2 != "" || e2 != nil {
+				r.Violation(c, gsrig.EscapeSig(esc2)+":follow-up-run-after:"+sig, fmt.Sprintf("after the faulted run, a fault-free run in the same process: err=%v %s", e2, esc2), rec)
+				if esc2 == gsrig.Hung {
+					hungOnce = true
+				}
+				close2()
+				return
+			}
+			_ = ag2
+		}
+		close2()
+	}
+	r.Count("follow-up runs after a fault", 1)
 	r.Count("fault in "+rec.Stage+" stage -> matching kind", 1)
 	r.Nontrivial(fmt.Sprintf("%+v|%s|%d", sh, rec.Fault, rec.At))
 	if r.Counter("samples") < 5 {
